@@ -373,6 +373,7 @@ package runtime
 //@ method (*VM).GetCurrentModule
 //@   requires vmWF(vm)
 //@   pure
+//@   ensures result == (vm.csModuleID >= 0 && vm.csModuleID < len(vm.moduleGraph.modules) ? vm.moduleGraph.modules[vm.csModuleID] : nil)
 //@ method (*VM).FindModuleByName
 //@   requires vmWF(vm)
 //@   pure
